@@ -12,6 +12,7 @@ CONSTANTS
   DEV_NameCase = FALSE
   DEV_DefLocator = FALSE
   DEV_KindBound = TRUE
+  DEV_UnnamedDef = TRUE
   MaxDepth = 6
   FullEvery = 1
 SPECIFICATION Spec
